@@ -136,10 +136,16 @@ type srpClient struct {
 
 // srpCompute runs the client side for user "Pair-Setup" and the given password
 func srpCompute(password string, salt, Bbytes []byte) *srpClient {
-	c := &srpClient{}
 	ab := make([]byte, 32)
 	rand.Read(ab)
-	c.a = new(big.Int).SetBytes(ab)
+	return srpComputeWith(new(big.Int).SetBytes(ab), password, salt, Bbytes)
+}
+
+// srpComputeWith is srpCompute with the controller's secret exponent given (srp family: the Coq
+// model recomputes the exchange from the same secret)
+func srpComputeWith(a *big.Int, password string, salt, Bbytes []byte) *srpClient {
+	c := &srpClient{}
+	c.a = a
 	c.A = new(big.Int).Exp(srpG, c.a, srpN)
 	B := new(big.Int).SetBytes(Bbytes)
 	k := new(big.Int).SetBytes(h512(srpN.Bytes(), pad384(srpG)))
